@@ -41,6 +41,8 @@ def elements(uid):
         'nosuch40:arg': (b'nosuchfilter_with_a_name_of_forty_bytes_:%d' % uid, True),
         'nosuch': (b'nosuch', True),
         'nosuch:arg': (b'nosuch:arg', True),
+        'only_uid:blanks': (b'only_uid:7 ,%d' % uid, True),            # blanks inside the argument: the list still contains the uid
+        'exclude_uid:blanks': (b'exclude_uid:5, %d ,9' % uid, False),
         'empty': (b'', True),
     }
 
